@@ -406,7 +406,8 @@ def check_blake2_params(ctx, P):
             dst = pred.canon(fn.expr(wr[0].args[0]), fn)
             src = pred.canon(fn.expr(wr[0].args[1]), fn)
             hb = blk // 2
-            okw = dst == "arg1.buf[0..%d]" % hb and src == "arg1.eng.h"
+            wd_ = rules.window(fn, fn.expr(wr[0].args[0]))
+            okw = (dst == "arg1.buf[0..%d]" % hb or (wd_ is not None and wd_[0] == "arg1.buf" and wd_[1] == ((), 0) and wd_[2] == ((), hb))) and src == "arg1.eng.h"
         ctx.check(okw, "blake2-out", T, "digest = little-endian bytes of all 8 chaining words at buf[0..], written after the final compression", "%s::internal_final does not serialise the whole chaining value (8 words, little-endian) to the start of buf after the final compression: %s" % (T, [(pred.canon(fn.expr(c.args[0]), fn), pred.canon(fn.expr(c.args[1]), fn)) for c in wr]), where=fn.where(), key="blake2-out:%s" % T)
         for fm in ("finalize_at", "finalize_reset_at", "finalize_reset_with_key_at"):
             g = P.fn_opt(T + "::" + fm)
@@ -416,7 +417,9 @@ def check_blake2_params(ctx, P):
             fin = [c for c in g.calls() if c.name().endswith("::internal_final")]
             okc = len(cps) == 1 and len(fin) == 1 and g.dominates(fin[0].bb, cps[0].bb)
             if okc:
-                okc = pred.canon(g.expr(cps[0].args[1]), g) in ("arg1.buf[0..len(arg2)]", "arg1.buf[0..len(arg3)]") and pred.canon(g.expr(cps[0].args[0]), g) in ("arg2", "arg3")
+                ws_ = rules.window(g, g.expr(cps[0].args[1]))
+                src_ok = pred.canon(g.expr(cps[0].args[1]), g) in ("arg1.buf[0..len(arg2)]", "arg1.buf[0..len(arg3)]") or (ws_ is not None and ws_[0] == "arg1.buf" and ws_[1] == ((), 0) and ws_[2] in (((("len(arg2)", 1),), 0), ((("len(arg3)", 1),), 0)))
+                okc = src_ok and pred.canon(g.expr(cps[0].args[0]), g) in ("arg2", "arg3")
             ctx.check(okc, "blake2-out", "%s::%s" % (T, fm), "out <- buf[0..out.len()] after internal_final", "%s::%s does not copy the first out.len() digest bytes after finalising: %s" % (T, fm, [(pred.canon(g.expr(c.args[0]), g), pred.canon(g.expr(c.args[1]), g)) for c in cps]), where=g.where(), key="blake2-out:%s::%s" % (T, fm))
 
 
